@@ -124,6 +124,13 @@ def unit_pretty():
         rows = run_sync(I.iterate_all(run_sync(I.call(Pm.pretty, (w,), {}))))
         ok = len(rows) == 1 and not calls and isinstance(rows[0], str) and ANSI.sub("", rows[0]) == str(w)
         ctx.record("warning-is-exactly-one-row-with-its-text", ok, site="pretty/unmarshal.py:pretty", detail=repr(rows)[:200])
+        # pretty_attrs on anything that is not an attribute word: no rows, no error (whoever calls it)
+        for nm, e in (("structure-event", MarshalEvent(path, Command, ...)), ("plain-integer-event", MarshalEvent(path, UINT16, val))):
+            try:
+                rows = run_sync(I.iterate_all(run_sync(I.call(Pm.pretty_attrs, (e,), {}))))
+                ctx.record(f"bit-rows-of-a-{nm}-are-none", rows == [], site="pretty/unmarshal.py:pretty_attrs", detail=repr(rows)[:120])
+            except PyExc as ex:
+                ctx.record(f"bit-rows-of-a-{nm}-are-none", False, site="pretty/unmarshal.py:pretty_attrs", detail=repr(ex.exc)[:120])
         return ("return", None)
 
     res = explore(run)
@@ -333,6 +340,46 @@ def unit_main_steps():
     ob("main/attribute-word-is-one-row-plus-its-bit-rows", ys == [("ROW", attr), ("BITS", attr)] and out == "next-iteration", f"{ys} {out}")
     ys, out, _ = run_case(info)
     ob("main/warning-is-one-row", ys == [("ROW", info)] and out == "next-iteration", f"{ys} {out}")
+    # the same two rules for every type there is (a printer predicate may single out one layout shape): every structure-like
+    # type as a structure event, every primitive class as a field event; attribute words are the TPMA_* types and TPM_RC
+    import dataclasses
+    from checks import c16
+    from checks.common import layout
+    from tpmstream.spec import all_types
+
+    bad = []
+    n = 0
+    from tpmstream.spec.commands import command_response_types
+
+    seen_types = set()
+    for T in list(all_types) + list(command_response_types):
+        if dataclasses.is_dataclass(T) and T not in seen_types:
+            seen_types.add(T)
+            n += 1
+            ev = ME(root / PN("s"), T, ...)
+            ys, out, _ = run_case(ev)
+            if not (ys == [("ROW", ev)] and out == "next-iteration"):
+                bad.append(f"{T.__name__}: {[y[0] for y in ys]} {out}")
+    ob("main/structure-event-of-every-type-is-one-row", not bad and n > 500, f"{n} types; " + "; ".join(bad[:4]))
+    bad = []
+    n = 0
+    PRIMS = layout()["primitives"]
+    for T in c16.prim_types():
+        ent = PRIMS[T.__name__]
+        lo = -(1 << (8 * ent["width"] - 1)) if ent["signed"] else 0
+        for v in sorted({0, 1, lo, (1 << (8 * ent["width"] - (1 if ent["signed"] else 0))) - 1}):
+            try:
+                val = T(v)
+            except Exception:
+                continue
+            n += 1
+            ev = ME(root / PN("p"), T, val)
+            word = T.__name__.startswith("TPMA_") or T.__name__ == "TPM_RC"
+            ys, out, _ = run_case(ev)
+            want = [("ROW", ev), ("BITS", ev)] if word else [("ROW", ev)]
+            if not (ys == want and out == "next-iteration"):
+                bad.append(f"{T.__name__}({v}): {[y[0] for y in ys]} {out}")
+    ob("main/field-event-of-every-primitive-class-is-one-row-plus-bit-rows-exactly-for-attribute-words", not bad and n > 200, f"{n} events; " + "; ".join(bad[:4]))
     for nm, lp in lists.items():
         ys, out, calls = run_case(lp, "none")
         ok = ys == [("LIST", lp)] and out == "return" and len(calls) == 1 and calls[0][1][0] is lp
